@@ -9,6 +9,7 @@
 //@ replace XMLReader_xcodeMoreChars
 //@ replace XMLTransService_makeNewTranscoderFor
 //@ entry h_refreshCharBuffer
+//@ note xcodeMoreChars is replaced by the contract proved in unit rdr_xcodeMoreChars (same text: contracts/XMLReader_xcodeMoreChars.contract.inc)
 //@ note makeNewTranscoderFor is contract-only (may return NULL or any object; writes *failReason)
 #define VERIF_DEFINE_GHOSTS
 #include "verif_prelude.h"
@@ -21,6 +22,9 @@
 
 /* ghost index: harness-chosen, in no assigns clause (universal statement without a quantifier) */
 XMLSize_t G;
+/* ghosts of the xcodeMoreChars contract (contracts/XMLReader_xcodeMoreChars.contract.inc, proved in unit rdr_xcodeMoreChars):
+   GR universal index into the raw bytes (never assigned); the others are observation ghosts written by the stream / transcoder contracts */
+XMLSize_t GR, STREAM_R, XC_SEQ, XC_SRCOFS, XC_SRCCOUNT, XC_EATEN, XC_RET;
 typedef int XMLTransService_Codes;
 //@ opaque XMLTranscoder
 
@@ -36,14 +40,7 @@ __CPROVER_ensures(1)
 /*@extract src/xercesc/internal/XMLReader.cpp XMLReader::xcodeMoreChars
 declonly
 contract
-__CPROVER_requires(maxChars >= 1 && !verif_thrown)
-__CPROVER_requires(__CPROVER_same_object(bufToFill, fCharBuf) && __CPROVER_POINTER_OFFSET(bufToFill) - OFS_XMLReader_fCharBuf + maxChars * sizeof(XMLCh) <= sizeof(fCharBuf))
-__CPROVER_requires(__CPROVER_same_object(charSizes, fCharSizeBuf) && __CPROVER_POINTER_OFFSET(charSizes) - OFS_XMLReader_fCharSizeBuf + maxChars <= sizeof(fCharSizeBuf))
-__CPROVER_assigns(__CPROVER_object_upto(bufToFill, maxChars * sizeof(XMLCh)), __CPROVER_object_upto(charSizes, maxChars))
-__CPROVER_assigns(fRawBufIndex, fRawBytesAvail, __CPROVER_object_upto(fRawByteBuf, sizeof(fRawByteBuf)), verif_thrown, verif_throw_type, verif_throw_code)
-__CPROVER_ensures(__CPROVER_return_value <= maxChars)
-__CPROVER_ensures(verif_thrown ==> __CPROVER_return_value == 0)
-__CPROVER_ensures(fRawBufIndex <= fRawBytesAvail && fRawBytesAvail <= kRawBufSize)
+//@ include XMLReader_xcodeMoreChars.contract.inc
 @*/
 
 /*@extract src/xercesc/internal/XMLReader.cpp XMLReader::refreshCharBuffer
@@ -55,8 +52,8 @@ contract
 __CPROVER_requires(fCharIndex <= fCharsAvail && fCharsAvail <= kCharBufSize && !verif_thrown)
 __CPROVER_requires(fNoMore ==> fCharIndex == fCharsAvail)
 __CPROVER_requires(fRawBufIndex <= fRawBytesAvail && fRawBytesAvail <= kRawBufSize)
-__CPROVER_requires(G < kCharBufSize)
-__CPROVER_assigns(SELF, verif_thrown, verif_throw_type, verif_throw_code)
+__CPROVER_requires(G < kCharBufSize && GR < kRawBufSize)
+__CPROVER_assigns(SELF, STREAM_R, XC_SEQ, XC_SRCOFS, XC_SRCCOUNT, XC_EATEN, XC_RET, verif_thrown, verif_throw_type, verif_throw_code)
 /* RI_rdr re-established on normal and exceptional exit */
 __CPROVER_ensures(fNoMore ==> fCharIndex == fCharsAvail)
 __CPROVER_ensures(fCharIndex <= fCharsAvail && fCharsAvail <= kCharBufSize)
@@ -64,6 +61,10 @@ __CPROVER_ensures(fRawBufIndex <= fRawBytesAvail && fRawBytesAvail <= kRawBufSiz
 __CPROVER_ensures(verif_thrown ==> !__CPROVER_return_value)
 __CPROVER_ensures(__CPROVER_return_value ==> (fCharsAvail >= 1 && fCharIndex == 0))
 __CPROVER_ensures((!verif_thrown && !__CPROVER_return_value) ==> fCharIndex == fCharsAvail)
+/* the two extra postconditions of contracts/XMLReader_ri2.inc: a successful refill never shrinks the window of unread characters (no ghost guard);
+   a refill that reports end-of-data leaves fNoMore set */
+__CPROVER_ensures((!verif_thrown && __CPROVER_return_value) ==> fCharsAvail - fCharIndex >= __CPROVER_old(fCharsAvail) - __CPROVER_old(fCharIndex))
+__CPROVER_ensures((!verif_thrown && !__CPROVER_return_value) ==> fNoMore)
 /* with at least one spare character the refill cannot report end-of-data */
 __CPROVER_ensures((!verif_thrown && __CPROVER_old(fCharIndex) < __CPROVER_old(fCharsAvail)) ==> __CPROVER_return_value)
 /* C04 refill transparency: every spare (unread) character survives the refill, unchanged and in order, at the front */
